@@ -118,6 +118,9 @@ func BFS[O any](spec Spec[O]) Stats[O] {
 				if j > 0 {
 					sys = build(h)
 				}
+				if ds, ok := any(sys).(interface{ SetDepth(int) }); ok {
+					ds.SetDepth(depth) // depth of the state this transition leads to (seeds count as depth 0)
+				}
 				tainted := sys.Apply(op, true)
 				atomic.AddInt64(&trans, 1)
 				if tainted {
